@@ -184,7 +184,7 @@ pub fn run_c04(ctx: &Ctx) {
         use crate::l4;
         ctx.run_corpus::<l4::Case>("l4", |c| l4::run_case(c, l4::Prop::C04));
         let rule = format!("{RULE_L4}; here: 2..3 workers, limit 12 (never saturated), 3..10 clients each served before the next connects (hand-over, so call order equals dispatch order): any W consecutive connections are served by W distinct worker threads; non-trivial = the window rule was evaluated");
-        ctx.run_random(Part::new("l4", &rule, ctx.tier.scale(300, 4)).floors(&[("round-robin-window-checked", 0.7)]).shards(8).shrink_iters(8), l4::gen::c04_strategy, |c| l4::run_case(c, l4::Prop::C04));
+        ctx.run_random(Part::new("l4", &rule, ctx.tier.scale(300, 4)).floors(&[("round-robin-window-checked", 0.7), ("registered-by-address-list", 0.15)]).shards(8).shrink_iters(8), l4::gen::c04_strategy, |c| l4::run_case(c, l4::Prop::C04));
     }
 }
 
@@ -248,7 +248,7 @@ pub fn run_c01(ctx: &Ctx) {
         l3gen::c07_strategy,
         |c| crate::l3::run_case(c, crate::l3::Prop::C01),
     );
-    run_l4_part(ctx, crate::l4::Prop::C01, crate::l4::gen::P { pause: 1, inject: 0, panic: 0, stop: 0, busy: 0, uds: true, max_limit: 3 }, ctx.tier.scale(300, 4), &[("served-by>=2-workers", 0.2)], "connections were served by at least two worker threads or two listeners exist (each connection is served exactly once by the service of the listener it connected to)");
+    run_l4_part(ctx, crate::l4::Prop::C01, crate::l4::gen::P { pause: 1, inject: 0, panic: 0, stop: 0, busy: 0, uds: true, max_limit: 3 }, ctx.tier.scale(300, 4), &[("served-by>=2-workers", 0.2), ("registered-by-address", 0.15), ("registered-by-address-list", 0.15)], "connections were served by at least two worker threads or two listeners exist (each connection is served exactly once by the service of the listener it connected to)");
 }
 
 pub fn replay_c01(ctx: &Ctx, v: &Value) -> i32 {
@@ -427,7 +427,7 @@ pub fn replay_c10(ctx: &Ctx, v: &Value) -> i32 {
 
 // ---- L4: end-to-end through the public API -----------------------------------------------------
 
-const RULE_L4: &str = "L4: op scripts (connect a client that sends its id / release a held connection / settle = wait until the server has taken everything it has capacity for / pause / resume / inject an accept error / make the next Service::call panic / sleep / stop graceful|forced, once or twice, future polled or dropped) against a real Server (1..3 workers, limit 1..4, 1..2 listeners TCP/UDS, shutdown_timeout 1..2 s) with real threads and real time; the service counts connections in progress per worker thread, greets the client and holds the connection until released; time bounds of 5 s (re-judged twice alone before counting)";
+const RULE_L4: &str = "L4: op scripts (connect a client that sends its id / release a held connection / settle = wait until the server has taken everything it has capacity for / pause / resume / inject an accept error / make the next Service::call panic / sleep / stop graceful|forced, once or twice, future polled or dropped) against a real Server (1..3 workers, limit 1..4, 1..2 listeners TCP/UDS registered through listen()/listen_uds(), bind()/bind_uds() or bind() with a two-address list (two sockets, one factory; clients alternate between the addresses), shutdown_timeout 1..2 s) with real threads and real time; the service counts connections in progress per worker thread, greets the client and holds the connection until released; time bounds of 5 s (re-judged twice alone before counting)";
 
 fn run_l4_part(ctx: &Ctx, prop: crate::l4::Prop, p: crate::l4::gen::P, cases: u64, floors: &[(&str, f64)], nt: &str) {
     use crate::l4;
